@@ -1,4 +1,5 @@
 import ElexModel.Props.C02
+import ElexModel.Gen.C03
 
 /-!
 # C03 — counted votes are a floor and reported units are final
@@ -105,5 +106,28 @@ theorem no_nonreporting_zero_width (cls : Bool) (rep nonrep unexp : List U) (k :
 example : unitPred (-1/2) 100 80 = 80 ∧ unitPred (1/10) 100 80 = 110 := by decide +kernel
 example : unitLower (-1/10) (-3/10) 100 50 = 120 ∧ unitLower (-1/10) (3/10) 100 70 = 70 := by decide +kernel
 example : gaussAgg 100 (-80) 50 7 = 57 := by decide +kernel
+
+end ElexModel.Agg
+
+/-! ### bridge: the unit formulas as they are in `/repo/src` on this run (regenerated by the translator) -/
+
+open ElexModel
+namespace ElexModel.Agg
+
+/-- `ConformalElectionModel.get_unit_predictions` (dataflow of the function body) is `unitPred` -/
+theorem bridge_unit_pred (p w part : ℚ) : Gen.C03.unit_pred p w part = (unitPred p w part : ℚ) := rfl
+
+/-- `NonparametricElectionModel.get_unit_prediction_intervals` is `unitLower / unitUpper` at the applied correction -/
+theorem bridge_unit_bounds (l u w part npq pc : ℚ) (robust : Bool) :
+    Gen.C03.final_lower l u w part robust npq pc = (unitLower l (if robust then rmax npq pc else pc) w part : ℚ) ∧
+    Gen.C03.final_upper l u w part robust npq pc = (unitUpper u (if robust then rmax npq pc else pc) w part : ℚ) := ⟨rfl, rfl⟩
+
+/-- … hence the source formulas keep the counted votes as a floor -/
+theorem source_unit_floor (p l u w npq pc : ℚ) (robust : Bool) (r : ℤ) :
+    (r : ℚ) ≤ Gen.C03.unit_pred p w r ∧ (r : ℚ) ≤ Gen.C03.final_lower l u w r robust npq pc ∧
+    (r : ℚ) ≤ Gen.C03.final_upper l u w r robust npq pc := by
+  rw [bridge_unit_pred, (bridge_unit_bounds l u w r npq pc robust).1, (bridge_unit_bounds l u w r npq pc robust).2]
+  exact ⟨by exact_mod_cast unit_floor_pred p w r, by exact_mod_cast unit_floor_lower l _ w r,
+    by exact_mod_cast unit_floor_upper u _ w r⟩
 
 end ElexModel.Agg
